@@ -636,7 +636,12 @@ class Polyhedron(Shape3D):
             attempt += 1
             try:
                 center, r2 = miniball.get_bounding_ball(vertices)
-                break
+                # With a degenerate support set miniball can stop at a ball that
+                # does not contain all the points: that counts as a failure too.
+                distances = np.linalg.norm(vertices - center, axis=1)
+                if np.all(distances <= np.sqrt(r2) * (1 + 1e-9)):
+                    break
+                raise np.linalg.LinAlgError("The ball misses some of the points.")
             except np.linalg.LinAlgError:
                 current_rotation = rowan.random.rand(1)
                 vertices = rowan.rotate(current_rotation, self.vertices)
